@@ -78,6 +78,7 @@ func GenDoc(r *Rand, o DocOpts) model.Doc {
 			a := &model.AuthCfg{Type: 1, Options: map[string]string{"hash": pw.Hash}, Password: pw.Pw}
 			if o.Keychain && r.Chance(25) {
 				a.Options = map[string]string{"group": "g", "key": u.Name}
+				a.KeychainErr = r.Chance(25)
 			}
 			if o.OddAuth && r.Chance(20) {
 				switch r.Intn(3) {
